@@ -77,6 +77,11 @@ def mk_meta(v):
 def mk_block(d):
     from bibtexparser import model as M
     c = d["c"]
+    if c == "entry" and d.get("src") is not None:
+        # the entry as the parser hands it out (the description says what that is): the dict-like operations hold for it too
+        import bibtexparser
+        (b,) = bibtexparser.parse_string(d["src"], parse_stack=[]).blocks
+        return b
     if c == "entry":
         b = M.Entry(entry_type=d["ty"], key=d["key"], fields=[mk_field(f) for f in d["fields"]],
                     start_line=d["line"], raw=d["raw"])
@@ -415,9 +420,22 @@ def _observers():
     return out
 
 
+PARSED = [
+    {"c": "entry", "ty": "misc", "key": "reftex", "fields": [], "line": 0, "raw": "@misc{reftex}", "md": [], "src": "@misc{reftex}"},
+    {"c": "entry", "ty": "book", "key": "b1", "fields": [], "line": 0, "raw": "@book{b1,}", "md": [], "src": "@book{b1,}"},
+    {"c": "entry", "ty": "a", "key": "k", "fields": [["x", "1", 0], ["y", "{2}", 1]], "line": 0, "raw": "@a{k, x = 1,\n y = {2}}", "md": [],
+     "src": "@a{k, x = 1,\n y = {2}}"},
+]
+
+
 def corpus():
     e2 = START[1]
     cs = [
+        {"k": "ops", "e": pe, "ops": ops}
+        for pe in PARSED
+        for ops in ([["setitem", "note", "v"], ["setfield", ["a", "z", 9]], ["getitem", "note"], ["pop", "note", None], ["contains", "a"]],
+                    [["setfield", ["x", "new", 5]], ["delitem", "x"], ["setitem", "x", "again"], ["get", "y", None]])
+    ] + [
         {"k": "ops", "e": e2, "ops": [["setitem", "a", "new"], ["setitem", "c", "app"], ["delitem", "a"], ["getitem", "a"]]},
         {"k": "ops", "e": START[2], "ops": [["setfield", ["a", "z", 9]], ["pop", "A", None], ["setitem", "A", 1], ["get", "A", None]]},
         {"k": "ops", "e": START[3], "ops": [["setitem", "a", "n"], ["get", "a", None], ["pop", "a", None], ["contains", "a"]]},
